@@ -172,10 +172,10 @@ size_t num_bits(const B &b)
     }
     return 0;
 }
-// functions evaluate factorials / sieves / recursions on exact arguments: only small exact numbers (|n| <= 1023)
+// functions evaluate factorials / sieves / harmonic sums on exact arguments: only small exact numbers (|n| <= 63)
 bool small_for_function(const B &b)
 {
-    return num_bits(b) <= 10;
+    return num_bits(b) <= 6;
 }
 bool small_for_arith(const B &b)
 {
@@ -381,6 +381,10 @@ B build(FuzzedDataProvider &fdp)
                 }
                 case 21: {
                     RCP<const Set> a = pick_set(), b = pick_set();
+                    // generator precondition: set_complement of two ImageSets recurses forever in the library
+                    // (ImageSet::set_complement, sets.cpp:1687; reported separately, not a property of loads)
+                    if (is_a<ImageSet>(*a) || is_a<ImageSet>(*b))
+                        break;
                     switch (fdp.ConsumeIntegralInRange<int>(0, 2)) {
                         case 0:
                             r = set_union({a, b});
